@@ -47,6 +47,6 @@ def run_driver(workroot, driver_cpp, args, timeout=60, extra_inc=()):
     env = dict(os.environ, ASAN_OPTIONS="detect_leaks=0:abort_on_error=0", UBSAN_OPTIONS="print_stacktrace=1:halt_on_error=1")
     try:
         r = subprocess.run([exe] + [str(a) for a in args], capture_output=True, text=True, timeout=timeout, env=env)
-        return dict(rc=r.returncode, stdout=r.stdout[-4000:], stderr=r.stderr[-3000:], timed_out=False)
+        return dict(rc=r.returncode, stdout=r.stdout[-4000:], stderr=(r.stderr[:1800] + ("\n...\n" + r.stderr[-1200:] if len(r.stderr) > 3000 else r.stderr[1800:])), timed_out=False)
     except subprocess.TimeoutExpired:
         return dict(rc=None, stdout="", stderr="", timed_out=True)
